@@ -1,5 +1,5 @@
 """C06: static graph hashes of dataset-wide layers identify the function they key."""
-from .. import suite_ghash, suite_vm
+from .. import suite_ghash, suite_vm, suite_hash
 from ..runner import Violation
 from ..par import pmap
 from .c01 import merge_stats
@@ -12,6 +12,16 @@ RULE = ('families of sub-pipelines (Source or Merge of 1-3 Sources with shared o
         'hashed by the Lean model. distinct_nontrivial = hash groups over all families')
 
 
+def _static_shard(args):
+    seed, n = args
+    evals, coll = 0, []
+    for i in range(n):
+        e, c, _ = suite_hash.run_family_static(seed * 6151 + i)
+        evals += e
+        coll += c
+    return evals, coll
+
+
 def _vm_shard(args):
     seed, n = args
     return suite_vm.run_suite(seed, n, max_nodes=12)['stats']
@@ -21,6 +31,9 @@ def run(tier, seed, res, lean):
     shards = 16 if tier == 'quick' else 64
     per = 12 if tier == 'quick' else 120
     outs = pmap(suite_ghash.run_shard, [(seed * 2741 + i + 29, per) for i in range(shards)])
+    st = pmap(_static_shard, [(seed * 911 + i + 5, 30 if tier == 'quick' else 200) for i in range(shards)])
+    for c in [c for o in st for c in o[1]][:4]:
+        res.violations.append(Violation('c06-static-collision', c['msg'], {'suite': 'S-HASH-STATIC', **c}))
     vm = merge_stats(pmap(_vm_shard, [(seed * 7333 + i + 11, 40 if tier == 'quick' else 200) for i in range(shards)]))
     if vm['static_vs_real_mismatch']:
         res.violations.append(Violation(
@@ -36,7 +49,7 @@ def run(tier, seed, res, lean):
         res.violations.append(Violation('c06-correspondence', 'Graph.hash() and the model\'s hashGraph differ on an extracted graph',
                                         {'suite': 'S-GHASH', 'theorems': list(lean['theorems']), **model_bad[0]}, found_input=False))
     res.coverage.update({
-        'evaluations': stats['variants'], 'distinct_nontrivial': stats['groups'], 'rule': RULE,
+        'evaluations': stats['variants'] + sum(o[0] for o in st), 'engine_level_static_hashes': sum(o[0] for o in st), 'distinct_nontrivial': stats['groups'], 'rule': RULE,
         'programs': stats['variants'], 'disagreements_checked': len(model_bad) + len(problems),
         'samples': [{'kinds': stats['kinds']}], 'distribution': stats,
         'theorem_instances': {'what': 'call steps of random engine graphs that are plain with all used inputs bound to one value '
